@@ -294,7 +294,7 @@ func runOnePath(P *Program, cfg *HarnessCfg, entry *ssa.Function, solver, solver
 		globals: map[*ssa.Global]*Object{}, mutexes: map[string]*MutexState{},
 		tagCount: map[string]int{}, covers: map[string]bool{}, fnsSeen: map[*ssa.Function]int{},
 		pools: map[string][]Value{}, idxMemo: map[string]*Term{}, maxOf: map[*Object]int{},
-		timerObjs: map[*Object]*Timer{}, lockViol: map[string]bool{}, unsatCache: map[uint32]bool{},
+		timerObjs: map[*Object]*Timer{}, lockViol: map[string]bool{}, unsatCache: map[uint32]bool{}, harnessFn: map[*ssa.Function]bool{},
 	}
 	solver.Reset()
 	defer func() {
